@@ -108,6 +108,14 @@ pub mod io {
 
     static ENABLED: AtomicBool = AtomicBool::new(false);
     static STATE: Mutex<Option<State>> = Mutex::new(None);
+    static PAGE_WRITE_DELAY_US: std::sync::atomic::AtomicU64 = std::sync::atomic::AtomicU64::new(0);
+
+    /// "Slow device": every page write performed by an I/O worker is followed by a pause of
+    /// `micros` before the worker delivers its completion and takes the next command, so that a
+    /// queue of submitted writes drains over a known span of time. 0 switches it off.
+    pub fn set_page_write_delay(micros: u64) {
+        PAGE_WRITE_DELAY_US.store(micros, Ordering::SeqCst);
+    }
     thread_local! { static CUR: Cell<usize> = Cell::new(usize::MAX); }
 
     fn name_of_fd(fd: RawFd) -> String {
@@ -333,7 +341,13 @@ pub mod io {
             s.log[id].performed = Some(seq);
             s.completed_pages.entry((fd, pn)).or_default().push(id);
         }
-        if s.log[id].injected {
+        let injected = s.log[id].injected;
+        drop(g);
+        let delay = PAGE_WRITE_DELAY_US.load(Ordering::SeqCst);
+        if delay > 0 {
+            std::thread::sleep(std::time::Duration::from_micros(delay));
+        }
+        if injected {
             return Err(injected_error());
         }
         result
